@@ -285,11 +285,12 @@ class Exec:
         if True:
             # If all operands share a scalar kind keep value semantics, else boolean
             kinds = {type(v) for v in vals}
-            if kinds == {VStr}:
+            if kinds == {VStr} or kinds == {VInt}:
+                K_ = VStr if kinds == {VStr} else VInt
                 acc = vals[-1].t
                 for v, t in zip(reversed(vals[:-1]), reversed(ts[:-1])):
                     acc = z3.If(t, acc, v.t) if isinstance(e.op, ast.And) else z3.If(t, v.t, acc)
-                return VStr(acc)
+                return K_(acc)
             return VBool(z3.And(*ts) if isinstance(e.op, ast.And) else z3.Or(*ts))
     def e_IfExp(self, e, st):
         c = self.truthy(st, self.ev(e.test, st)); a, b = lift(self.ev(e.body, st)), lift(self.ev(e.orelse, st))
